@@ -1033,6 +1033,312 @@ def stream_c01(ctx, n=None):
 
 
 # ---------------------------------------------------------------------------
+# C08 (bidirectional deltas on values with instances): t2 - delta = t1, a one-way delta refuses, a base that
+# differs at a changed location is reported.  Wired as  `with ctx.extension("Obj"): O.stream_c08(ctx)`
+# ---------------------------------------------------------------------------
+
+C08_CLASSES = ("PA", "PB", "SL")      # verification compares with ==: classes with __eq__ only
+HDR8 = HDR[:-1] + " Delta.DeltaVerify Delta.DeltaVerifyIndep Delta.DeltaReverse Delta.DeltaVerifyHyp."
+
+
+def keys_nonneg_py(v):
+    if isinstance(v, (list, tuple)):
+        return all(keys_nonneg_py(x) for x in v)
+    if isinstance(v, dict):
+        return all(not (type(k) is int and k < 0) and keys_nonneg_py(x) for k, x in v.items())
+    return True
+
+
+def korder_py(t1, t2):
+    """mirror of DeltaReverseSym.korder (on encodings: also the ATTRIBUTE order of two instances of one class)"""
+    if (type(t1) is list and type(t2) is list) or (type(t1) is tuple and type(t2) is tuple):
+        return all(korder_py(x, y) for x, y in zip(t1, t2))
+    if isinstance(t1, dict) and isinstance(t2, dict):
+        c1 = [V.canon_atom(k) for k in t1 if k in t2]
+        c2 = [V.canon_atom(k) for k in t2 if k in t1]
+        return c1 == c2 and all(korder_py(v, t2[k]) for k, v in t1.items() if k in t2)
+    return True
+
+
+def ntp_vals_o(t2, delta):
+    """mirror of DeltaVerifyHyp.ntp_valsb on the encodings: no tuple is the parent (in t2) of a location the
+    subtraction writes a value change to"""
+    e2 = enc_py(t2)
+    for p, ch in (delta.diff.get("values_changed", {}) or {}).items():
+        keys = enc_pathc(t2, ch["new_path"] if ch.get("new_path") else p)
+        if not keys:
+            continue
+        cur = e2
+        try:
+            for _tag, k in keys[:-1]:
+                cur = cur[D.uncanon_atom(k)]
+        except Exception:
+            continue
+        if isinstance(cur, tuple):
+            return False
+    return True
+
+
+def model_c08_expr(t1, t2, zip_, thr, always, conv_tbl, rem, add, rrem, radd, corrupt):
+    """SL [t1 + d; t2 - d; corrupted base + d (or None); the data guards of C08_objects_sub_inverts as Coq booleans]"""
+    ud, ops = _tables(t1, t2)
+    b = lambda x: "true" if x else "false"
+    cfg = D.coq_cfg(zip_, thr, True)
+    cor = "SA \"none\"" if corrupt is None else "sx_oresult (oapply cv ro ao d %s)" % to_coq_o(corrupt)
+    return ("(let cv := tbl_conv %s in "
+            "let d := odelta hatom_deep (tbl_udiff %s) (tbl_ops %s) %s cv true %s %s %s in "
+            "let ro := order_by %s fst in let ao := order_by %s fst in "
+            "SL [sx_oresult (oapply cv ro ao d %s); "
+            "sx_osub_result (osub cv (order_by %s fst) (order_by %s fst) d %s); %s; "
+            "SL [sx_bool (guardsb %s true %s (enc %s) (enc %s)); sx_bool (korderb (enc %s) (enc %s)); "
+            "sx_bool (keys_nonneg (enc %s)); sx_bool (ntp_valsb (enc %s) d)]])") % (
+        conv_tbl, ud, ops, cfg, b(always), to_coq_o(t1), to_coq_o(t2),
+        DC.coq_paths(rem), DC.coq_paths(add), to_coq_o(t1),
+        DC.coq_paths(rrem), DC.coq_paths(radd), to_coq_o(t2), cor,
+        cfg, b(always), to_coq_o(t2), to_coq_o(t1), to_coq_o(t1), to_coq_o(t2), to_coq_o(t1), to_coq_o(t2))
+
+
+def corrupt_base(rng, t1, dd_tree):
+    """t1 with the old value at one values_changed location replaced by another scalar (None when there is none)"""
+    from deepdiff.path import _path_to_elements
+    # scalar leaves only: an instance replaced by a scalar makes the ENCODED path of a whole-instance change (one level
+    # below the attribute) unresolvable, which the model reports without writing - the implementation writes
+    lvs = [lv for lv in (dd_tree.get("values_changed", []) or [])
+           if lv.path() != "root" and not has_obj(lv.t1) and not has_obj(lv.t2)
+           and not isinstance(lv.t1, (list, dict, set, frozenset, tuple)) and not isinstance(lv.t2, (list, dict, set, frozenset, tuple))]
+    if not lvs:
+        return None, None
+    lv = rng.choice(lvs)
+    path = []
+    cur = t1
+    try:
+        for el, act in _path_to_elements(lv.path(), root_element=None):
+            if act == "GETATTR":
+                path.append(("a", el))
+                cur = getattr(cur, el)
+            else:
+                path.append(("i" if isinstance(cur, (list, tuple)) else "k", el))
+                cur = cur[el]
+    except Exception:
+        return None, None
+    new = "corrupted" if lv.t1 != "corrupted" else "corrupted2"
+    try:
+        return set_at_o(copy.deepcopy(t1), tuple(path), new), lv.path()
+    except Exception:
+        return None, None
+
+
+def c08_pair(ctx, t1, t2, cases, corr=True):
+    from deepdiff import DeepDiff, Delta
+    zip_ = ctx.rng.random() < 0.4
+    thr = ctx.rng.choice(THRS)
+    always = ctx.rng.random() < 0.3
+    cfg = dict(zip=zip_, thr=thr, bidirectional=True, always_include_values=always, prop="C08")
+    a, b = copy.deepcopy(t1), copy.deepcopy(t2)
+    r, _unmod = run_dd(a, b, view="tree", zip_ordered_iterables=zip_, threshold_to_diff_deeper=thr)
+    if isinstance(r, Exception):
+        return
+    conv_tbl = conv_table_o(r)
+    dd = DeepDiff(a, b, zip_ordered_iterables=zip_, threshold_to_diff_deeper=thr)
+    try:
+        delta = Delta(dd, bidirectional=True, always_include_values=always, raise_errors=False)
+        oneway = Delta(dd, bidirectional=False, always_include_values=always, raise_errors=False)
+    except Exception as e:
+        ctx.fail(_case(t1, t2, clause="Delta() raised " + type(e).__name__, **cfg), "Delta(diff) raised " + repr(e))
+        return
+    ctx.seen(("c08", repr(t1), repr(t2), zip_, thr, always), nontrivial=bool(dd))
+    case = _case(t1, t2, **cfg)
+    # a one-way delta refuses the subtraction (C08 clause 1)
+    try:
+        copy.deepcopy(t2) - oneway
+        case["clause"] = "one-way delta accepted a subtraction"
+        ctx.fail(case, "t2 - Delta(diff, bidirectional=False) did not raise")
+    except ValueError:
+        ctx.count("obj_c08:one_way_refused")
+    except Exception as e:
+        case["clause"] = "one-way subtraction raised " + type(e).__name__
+        ctx.fail(case, "t2 - one-way delta raised %r instead of ValueError" % (e,))
+    with DC.Counting() as c1:
+        try:
+            fwd, e1 = copy.deepcopy(t1) + delta, None
+        except Exception as e:
+            fwd, e1 = None, e
+    with DC.Counting() as c2:
+        try:
+            back, e2 = copy.deepcopy(t2) - delta, None
+        except Exception as e:
+            back, e2 = None, e
+    if e1 is not None or e2 is not None:
+        case["clause"] = "bidirectional delta raised"
+        ctx.fail(case, "t1 + d raised %r / t2 - d raised %r" % (e1, e2))
+        return
+    rd = Delta(dd, bidirectional=True, always_include_values=always, raise_errors=False)
+    rd.diff = rd._get_reverse_diff()
+    obs = slots_attr_removed(t1, t2, delta.diff) or slots_attr_removed(t2, t1, rd.diff) \
+        or identity_item_removed(delta.diff) or identity_item_removed(rd.diff)
+    structural = no_tuple_parent(t1) and no_tuple_parent(t2) and not hidden_private(t1) and not hidden_private(t2) and in_guard(t1, t2)
+    if obs:
+        ctx.count("obj_c08:OBJ1_or_OBJ2")
+        return
+    if not structural:
+        ctx.count("obj_c08:outside_structural_guard")
+        return
+    e1v, e2v = enc_py(t1), enc_py(t2)
+    hyp = [DC.guardsb_py(e2v, e1v, True, always), korder_py(e1v, e2v), keys_nonneg_py(e1v), ntp_vals_o(t2, delta)]
+    g12 = DC.guardsb_py(e1v, e2v, True, always)
+    for name, h in zip(("guards_t2_t1", "korder", "keys_nonneg_t1", "ntp_vals"), hyp):
+        ctx.count("obj_c08:hyp:%s_%s" % (name, "true" if h else "false"))
+    inside = all(hyp) and g12 and thr > 0
+    ctx.count("obj_c08:hyp:all_hold" if inside else "obj_c08:hyp:some_fail")
+    ok_back = oeq(back, t1) and not c2.n
+    ok_fwd = oeq(fwd, t2) and not c1.n
+    ctx.count("obj_c08:back_gives_t1" if ok_back else "obj_c08:back_differs_or_errors")
+    if inside and not (ok_back and ok_fwd):
+        # inside every data guard of C08_objects_add_and_sub the model goes forth and back exactly
+        case["clause"] = "forth and back differs inside the guards"
+        case["errors"] = [c1.n, c2.n]
+        ctx.fail(case, "inside the guards of the object inversion theorem: t1 + d = %r, t2 - d = %r" % (fwd, back))
+    # a corrupted base must be reported (C08 clause 3)
+    cbase, cpath = corrupt_base(ctx.rng, t1, r)
+    cres = None
+    if cbase is not None:
+        with DC.Counting() as c3:
+            try:
+                cres = copy.deepcopy(cbase) + delta
+            except Exception:
+                cres = None
+        if cres is not None:
+            ctx.count("obj_c08:corrupted_base_cases")
+            if not c3.n:
+                case["clause"] = "corrupted base accepted"
+                case["corrupted_path"] = cpath
+                ctx.fail(case, "the base differs from t1 at %s and t1' + d logged no error" % cpath)
+    if corr:
+        rem, add = impl_orders_o(delta, t1, t2)
+        rrem, radd = impl_orders_o(rd, t2, t1)
+        exp = [[canon_o(fwd, True), c1.n > 0], [canon_o(back, True), c2.n > 0],
+               "none" if cres is None else [canon_o(cres, True), c3.n > 0], hyp]
+        cases.append((model_c08_expr(t1, t2, zip_, thr, always, conv_tbl, rem, add, rrem, radd, cbase if cres is not None else None),
+                      exp, dict(t1=repr(t1), t2=repr(t2), block="Obj", what="t1+d / t2-d / corrupted+d / guards", **cfg)))
+
+
+def stream_c08(ctx, n=None):
+    cases = []
+    for _ in range(n or n_pairs(ctx, 160, 1000)):
+        t1, t2, ks = gen_pair(ctx.rng, classes=C08_CLASSES, kinds=C01_KINDS)
+        if ctx.rng.random() < 0.6:
+            # one more changed attribute value: a location for the corrupted-base clause
+            cand = [(p, k) for p in positions_o(t2) if is_obj(get_at_o(t2, p))
+                    for k, x in attrs_of(get_at_o(t2, p)) if type(x) in (int, str)]
+            if cand:
+                p, k = ctx.rng.choice(cand)
+                x = getattr(get_at_o(t2, p), k)
+                t2, ks = copy.deepcopy(set_at_o(t2, p + (("a", k),), x + 1 if type(x) is int else x + "!")), ks + ["scalar_attr_changed"]
+        _count_pair(ctx, "obj_c08", t1, t2, ks)
+        c08_pair(ctx, t1, t2, cases)
+    for c in cases[:2]:
+        ctx.sample(c[2])
+    ctx.coq_cases("obj_c08", HDR8, cases, shard=80, label="obj_bidirectional(C08)")
+
+
+# ---------------------------------------------------------------------------
+# C10 (views of one result agree) on values with instances: pretty() statements and to_dict(view_override) against
+# the tree; attribute_added / attribute_removed in every view.  Wired as `with ctx.extension("Obj"): O.stream_c10(ctx)`
+# ---------------------------------------------------------------------------
+
+HDR10 = HDR[:-1] + " Obj.ObjViews."
+
+
+def model_pretty_expr(t1, t2, zip_, thr, verbose):
+    ud, ops = _tables(t1, t2)
+    return "sx_opretty (opretty %d (fst (orun hatom_deep (tbl_udiff %s) (tbl_ops %s) %s %s %s)))" % (
+        verbose, ud, ops, D.coq_cfg(zip_, thr, True), to_coq_o(t1), to_coq_o(t2))
+
+
+def repr_modelled(v):
+    """the model's repr of instances is Cls(a=repr, ...); floats / strings as in the Views model (harness pools)"""
+    return True
+
+
+def c10_pair(ctx, t1, t2, cases, corr=True):
+    thr = ctx.rng.choice(THRS)
+    zip_ = ctx.rng.random() < 0.3
+    verbose = ctx.rng.choice((0, 1, 2))
+    cfg = dict(zip=zip_, thr=thr, verbose_level=verbose, prop="C10")
+    a, b = copy.deepcopy(t1), copy.deepcopy(t2)
+    kw = dict(zip_ordered_iterables=zip_, threshold_to_diff_deeper=thr, verbose_level=verbose)
+    tr, _ = run_dd(a, b, view="tree", **kw)
+    tx, _ = run_dd(copy.deepcopy(t1), copy.deepcopy(t2), **kw)
+    if isinstance(tr, Exception) or isinstance(tx, Exception):
+        ctx.fail(_case(t1, t2, clause="DeepDiff raised", **cfg), "DeepDiff raised %r / %r" % (tr, tx))
+        return
+    ctx.seen(("c10", repr(t1), repr(t2), zip_, thr, verbose), nontrivial=bool(tx))
+    case = _case(t1, t2, **cfg)
+    try:
+        lines_tree = [l for l in tr.pretty().split("\n") if l]
+        lines_text = [l for l in tx.pretty().split("\n") if l]
+        d_over = tr.to_dict(view_override="text")
+        d_text = tx.to_dict()
+    except Exception as e:
+        case["clause"] = "a view raised " + type(e).__name__
+        ctx.fail(case, "pretty() / to_dict() raised %r" % (e,))
+        return
+    # the views of ONE result agree (direct oracle)
+    if sorted(lines_tree) != sorted(lines_text):
+        case["clause"] = "pretty() of the tree view and of the text view differ"
+        ctx.fail(case, "pretty() differs between view='tree' and view='text'")
+    if text_obs_o(d_over) != text_obs_o(d_text) or text_obs_o(d_text) != text_obs_o(tx):
+        case["clause"] = "to_dict(view_override='text') differs from the text view"
+        ctx.fail(case, "to_dict(view_override='text') of the tree view is not the text view")
+    n_levels = sum(len(tr.get(k, []) or []) for k in KINDS_O if k != "iterable_item_moved")
+    if len(lines_tree) != n_levels:
+        case["clause"] = "pretty() does not have one statement per level"
+        ctx.fail(case, "pretty() has %d statements for %d levels" % (len(lines_tree), n_levels))
+    for cat, word in (("attribute_added", "added."), ("attribute_removed", "removed.")):
+        for lv in tr.get(cat, []) or []:
+            p = lv.path()
+            ctx.count("obj_c10:" + cat)
+            items = tx.get(cat, {})
+            val = lv.t2 if cat == "attribute_added" else lv.t1
+            if p not in items:
+                case["clause"] = cat + " level missing in the text view"
+                ctx.fail(case, "%s %s is in the tree and not in the text view" % (cat, p))
+            elif verbose >= 2 and not (isinstance(items, dict) and oeq(items[p], val)):
+                case["clause"] = cat + " value differs in the text view"
+                ctx.fail(case, "%s %s: the text view does not carry the level's value" % (cat, p))
+            elif verbose < 2 and isinstance(items, dict):
+                case["clause"] = cat + " carries a value below verbose_level 2"
+                ctx.fail(case, "%s %s carries a value at verbose_level %d" % (cat, p, verbose))
+            if not any(l.startswith("Attribute " + p + " ") and l.endswith(word) for l in lines_tree):
+                case["clause"] = cat + " statement missing in pretty()"
+                ctx.fail(case, "pretty() has no statement for %s %s" % (cat, p))
+    for kind in KINDS_O:
+        for lv in tr.get(kind, []) or []:
+            if kind.startswith("set_item") or kind == "iterable_item_moved":
+                continue
+            if not any(lv.path() in l for l in lines_tree):
+                case["clause"] = "pretty() does not name a level's path"
+                ctx.fail(case, "no statement of pretty() names %s" % lv.path())
+    if corr and in_guard(t1, t2):
+        cases.append((model_pretty_expr(t1, t2, zip_, thr, verbose), sx_sorted(lines_tree),
+                      dict(t1=repr(t1), t2=repr(t2), block="Obj", what="pretty()", **cfg)))
+        tcase, _r, _ = text_case(t1, t2, zip_, thr, verbose)
+        if tcase is not None:
+            cases.append((tcase[0], text_obs_o(d_over), dict(tcase[2], what="to_dict(view_override='text') of the tree view", prop="C10")))
+
+
+def stream_c10(ctx, n=None):
+    cases = []
+    for _ in range(n or n_pairs(ctx, 150, 1000)):
+        t1, t2, ks = gen_pair(ctx.rng)
+        _count_pair(ctx, "obj_c10", t1, t2, ks)
+        c10_pair(ctx, t1, t2, cases)
+    for c in cases[:2]:
+        ctx.sample(c[2])
+    ctx.coq_cases("obj_c10", HDR10, cases, shard=100, label="obj_pretty+to_dict(C10)")
+
+
+# ---------------------------------------------------------------------------
 # C09
 # ---------------------------------------------------------------------------
 
@@ -1118,5 +1424,9 @@ def replay_case(ctx, case):
         c01_pair(ctx, t1, t2, [], corr=False)
     elif prop == "C09":
         c09_pair(ctx, t1, t2, [], corr=False)
+    elif prop == "C08":
+        c08_pair(ctx, t1, t2, [], corr=False)
+    elif prop == "C10":
+        c10_pair(ctx, t1, t2, [], corr=False)
     else:
         c02_pair(ctx, t1, t2, [], corr=False)
